@@ -41,7 +41,7 @@ OpTypes == {"filter", "bind", "unbind", "resync", "apirelease", "poolupsert", "r
 \* lock while doing so; the code did not before a fix: commit)
 IsFilter(o) == o.type \in {"filter", "preempt"}
 \* ("bindLockFirst" -- Bind taking the pod lock before its lister lookup -- is a switch the code does not have)
-AllGuards == {"unbindUid", "bindStaleLister", "bindUidGuard", "bindPoolSize", "bindReuseReserve", "resyncReread", "apiDoubleCheck"}
+AllGuards == {"unbindUid", "bindStaleLister", "bindUidGuard", "bindPoolSize", "bindReuseReserve", "resyncReread", "apiDoubleCheck", "syncReread"}
              \cup {"podlock:" \o t : t \in OpTypes} \cup {"dplock:" \o t : t \in OpTypes}
 
 VARIABLES
@@ -383,8 +383,14 @@ Cont(o, r) ==
         ELSE {[o EXCEPT !.pc = "configure", !.loc.need = r.conf]}
    [] o.type = "reload" /\ o.pc = "configure" -> {Finish(o, r.ok)}
     (* ======== pod-ip sync of a running pod (UpdatePod) ======== *)
+   \* ("syncReread": the periodic sync works on a listed snapshot; under the pod lock it reads the pod again from the informer cache
+   \*  and skips a pod object that is not the cached one any more.  The UpdatePod handler gets its pod from the event.)
    [] o.type \in {"syncpod", "syncall"} /\ o.pc = "lockpod" ->
-        IF Len(L.ips) = 0 THEN {SyncEnd(o)} ELSE {[o EXCEPT !.pc = "byip", !.loc.i = 1, !.loc.ip = L.ips[1]]}
+        IF "syncReread" \in Guards /\ o.type = "syncall" THEN {Goto(o, "podlist")}
+        ELSE IF Len(L.ips) = 0 THEN {SyncEnd(o)} ELSE {[o EXCEPT !.pc = "byip", !.loc.i = 1, !.loc.ip = L.ips[1]]}
+   [] o.type \in {"syncpod", "syncall"} /\ o.pc = "podlist" ->
+        IF ~(r.found /\ r.uid = L.lpod.uid) \/ Len(L.ips) = 0 THEN {SyncEnd(o)}
+        ELSE {[o EXCEPT !.pc = "byip", !.loc.i = 1, !.loc.ip = L.ips[1]]}
    [] o.type \in {"syncpod", "syncall"} /\ o.pc = "byip" ->
         IF r.key = NoKey /\ L.ip \in DOMAIN mem THEN {Goto(o, "specific")}
         ELSE {SyncNext(o)}
